@@ -148,6 +148,27 @@ pub fn scripts(tier: Tier) -> Vec<Script> {
             ],
         });
     }
+    // a file whose headers are in the legacy format (even and odd number of commits before): the
+    // upgrade commit and the one after it
+    for (name, extra) in [("legacy-headers-then-upgrade-2", 0usize), ("legacy-headers-then-upgrade-3", 1)] {
+        let mut acts = vec![
+            tx({
+                let mut v = vec![OpSpec::bucket("create", &[], "b")];
+                for k in crate::drivers::KV_KEYS {
+                    v.push(OpSpec::put(&["b"], k, "w*300"));
+                }
+                v
+            }),
+            tx(vec![OpSpec::put(&["b"], "k0", "y*310"), OpSpec::put(&["b"], "k3", "u*300")]),
+        ];
+        for _ in 0..extra {
+            acts.push(tx(vec![OpSpec::put(&["b"], "k1", "z*290")]));
+        }
+        acts.push(Action::LegacyHeaders);
+        acts.push(tx(vec![OpSpec::put(&["b"], "k2", "y*310"), OpSpec::put(&["b"], "k5", "u*300")]));
+        acts.push(tx(vec![OpSpec::put(&["b"], "k4", "z*290"), OpSpec::del(&["b"], "k0")]));
+        out.push(Script { name, cfg: small(1024, 64), actions: acts });
+    }
     // page sizes that are not multiples of the 512-byte sector: two-entry leaves that end within the
     // last bytes of their second page, rewritten into freed pages next to live ones
     for (name, ps, a, b) in [("p5000-nodes-ending-near-a-page-end", 5000u64, "c*4900", "d*4900"), ("p1032-nodes-ending-near-a-page-end", 1032, "c*980", "d*980")] {
@@ -796,6 +817,13 @@ pub fn worker(idx: usize) {
             Ok(Err(e)) => return json!({"err": e}).to_string(),
             Err(_) => return json!({"err": "trace thread panicked"}).to_string(),
         };
+        if j["shortok"].as_bool().unwrap_or(false) {
+            // not a crash: every write of this commit answered short once (no error); the commit must
+            // succeed and its effects must be complete (they "survive" only if they were written)
+            let v = crate::faultx::benign_short_writes(sc, &path, step);
+            let viols: Vec<Value> = v.iter().map(|(ci, c, d)| json!([ci, c, d, json!({"short_ok": true})])).collect();
+            return json!({"generated": v.len(), "probed": v.len(), "capped": false, "v": viols, "ops_per_epoch": [], "saw_pre": 0, "saw_post": 0, "classes": {"short-write-ok": 1}}).to_string();
+        }
         if j["level2"].as_bool().unwrap_or(false) {
             return level2(sc, &trace, &path, part, parts, emit).to_string();
         }
@@ -872,6 +900,10 @@ pub fn run(check: &mut Check) {
                 }
             }
             // three crashes in a row: for the update chain (quick) / every non-pair script (thorough)
+            if !sc.name.starts_with("kv2-") {
+                jobs.push(json!({"script": si, "step": step, "part": 0, "parts": 1, "shortok": true}).to_string());
+                meta.push((si, step, 970));
+            }
             if std::env::var("VCHECK_NO_L3").is_ok() {
                 continue;
             }
@@ -990,6 +1022,14 @@ pub fn replay(v: &Value) -> i32 {
                         FOp::Extend { len } => println!("  epoch {} op {}: extend to {}", e, i, len),
                     }
                 }
+            }
+            if v["image"].get("short_ok").is_some() {
+                let found = crate::faultx::benign_short_writes(&scs[si], &path, step);
+                for (ci, c, d) in &found {
+                    println!("   !! [write #{}] {}: {}", ci, c, d);
+                }
+                report::cleanup_scratch(&scratch);
+                return if found.is_empty() { 0 } else { 1 };
             }
             // chained cases: {"first", "second"[, "third"]}
             let (t, image_json) = if v["image"].get("first").is_some() {
